@@ -760,6 +760,12 @@ func ruleDoErrorContract(c *Ctx, r *R) {
 							}
 						}
 					}
+					// the same question asked with a non-blocking poll of Done: select { case <-ctx.Done(): return ...; default: }
+					if cv, done, ok := ctxPollGuard(gd); ok && !done && (reaches(bb, gd.blk) || bb.Parent() != g) {
+						if eo := ctxOrigins(cv, map[ssa.Value]bool{}); len(eo) == 1 && eo[0] == egCtx {
+							pre = true
+						}
+					}
 				}
 			}
 			r.ok(pre, "parallel.DoContext|recheck-before-call", call.Pos(), "each iteration must re-check ctx.Err() on the group context before calling f: otherwise calls keep starting after a failure")
@@ -894,15 +900,22 @@ func ruleDoErrorContract(c *Ctx, r *R) {
 					if gd.blk.Succs[0] != b && gd.blk.Succs[1] != b {
 						continue
 					}
+					stopped := false
 					if cf, ok := gd.asCmp(); ok && cf.op == token.NEQ && isNilConst(cf.y) {
 						if ec, ok := cf.x.(*ssa.Call); ok && ec.Call.IsInvoke() && ec.Call.Method.Name() == "Err" {
-							nb++
-							good := false
-							if rc, ok := vr.val.(*ssa.Call); ok && rc.Call.IsInvoke() && rc.Call.Method.Name() == "Err" {
-								good = true
-							}
-							r.ok(good, "parallel.DoContext|cancelled-worker-reports", retPos(ret), "a worker that stops because the context is done must return ctx.Err(): returning nil turns a caller-side cancellation into a successful result with indices never processed")
+							stopped = true
 						}
+					}
+					if _, done, ok := ctxPollGuard(gd); ok && done {
+						stopped = true // inside the <-ctx.Done() arm of a non-blocking poll
+					}
+					if stopped {
+						nb++
+						good := false
+						if rc, ok := vr.val.(*ssa.Call); ok && rc.Call.IsInvoke() && rc.Call.Method.Name() == "Err" {
+							good = true
+						}
+						r.ok(good, "parallel.DoContext|cancelled-worker-reports", retPos(ret), "a worker that stops because the context is done must return ctx.Err(): returning nil turns a caller-side cancellation into a successful result with indices never processed")
 					}
 				}
 			}
@@ -1003,6 +1016,18 @@ func ruleMapPositional(c *Ctx, r *R) {
 	for _, name := range []string{"parallel.Map", "parallel.MapContext"} {
 		fn := c.fn(name)
 		cb := mapCallback(fn)
+		if fn != nil && cb == nil && name == "parallel.Map" {
+			// Map written as MapContext with an f that cannot fail: the slice goes through unchanged, the adapter applies f to
+			// the very item it is handed, and MapContext's slice is what Map returns - positions are MapContext's business
+			if why := mapDelegatesToMapContext(c, fn); why == "" {
+				r.discharged(name+"|positional", fn.Pos(), "delegates to MapContext with the same slice and an adapter that applies f to its own item")
+				r.discharged(name+"|out-len", fn.Pos(), "the result slice is MapContext's")
+				continue
+			} else if why != "-" {
+				r.violated(name+"|positional", fn.Pos(), "Map hands its work to MapContext, but "+why)
+				continue
+			}
+		}
 		if fn == nil || cb == nil {
 			r.undecided(name+"|callback", token.NoPos, "callback not found")
 			continue
@@ -1226,4 +1251,115 @@ func isQueryOnlyArg(v ssa.Value) bool {
 	}
 	n, exact := constant.Int64Val(k.Value)
 	return exact && n < 1
+}
+
+// mapDelegatesToMapContext: "" when Map is MapContext(ctx, parallelism, in, adapter) with Map's own slice, an adapter whose
+// every return is (f(item), nil) for Map's f and the adapter's own item parameter, and Map returns MapContext's slice; "-" when
+// Map does not call MapContext at all; otherwise what is wrong.
+func mapDelegatesToMapContext(c *Ctx, fn *ssa.Function) string {
+	var call *ssa.Call
+	instrs(fn, func(_ *ssa.BasicBlock, _ int, in ssa.Instruction) {
+		if x, ok := in.(*ssa.Call); ok {
+			if cal := staticCallee(&x.Call); cal != nil && fname(cal) == "MapContext" {
+				call = x
+			}
+		}
+	})
+	if call == nil {
+		return "-"
+	}
+	if len(call.Call.Args) != 4 || len(fn.Params) != 3 {
+		return "the call has an unexpected shape"
+	}
+	if call.Call.Args[2] != ssa.Value(fn.Params[1]) {
+		return "the slice handed over is not Map's own input"
+	}
+	if resolveVal(call.Call.Args[1]) != ssa.Value(fn.Params[0]) {
+		return "the parallelism handed over is not Map's own"
+	}
+	ad, _ := funcAndReceiver(call.Call.Args[3])
+	if ad == nil || ad.Blocks == nil || len(ad.Params) != 2 {
+		return "the adapter handed to MapContext cannot be resolved"
+	}
+	nRet := 0
+	bad := ""
+	instrs(ad, func(_ *ssa.BasicBlock, _ int, in ssa.Instruction) {
+		ret, ok := in.(*ssa.Return)
+		if !ok {
+			return
+		}
+		nRet++
+		if len(ret.Results) != 2 || !isNilConst(returnedValue(ret, 1)) {
+			bad = "the adapter can return an error"
+			return
+		}
+		fc, ok := returnedValue(ret, 0).(*ssa.Call)
+		if !ok || len(fc.Call.Args) != 1 || fc.Call.Args[0] != ssa.Value(ad.Params[1]) {
+			bad = "the adapter does not return f applied to the item it was handed"
+			return
+		}
+		if resolveVal(fc.Call.Value) != ssa.Value(fn.Params[2]) && path(fc.Call.Value) != pname(fn.Params[2]) {
+			bad = "the adapter calls something other than Map's f"
+		}
+	})
+	if nRet == 0 {
+		return "the adapter never returns"
+	}
+	if bad != "" {
+		return bad
+	}
+	// Map returns MapContext's slice
+	okRet := false
+	instrs(fn, func(_ *ssa.BasicBlock, _ int, in ssa.Instruction) {
+		if ret, ok := in.(*ssa.Return); ok && len(ret.Results) == 1 {
+			if ex, ok := returnedValue(ret, 0).(*ssa.Extract); ok && ex.Tuple == ssa.Value(call) && ex.Index == 0 {
+				okRet = true
+			}
+		}
+	})
+	if !okRet {
+		return "Map does not return the slice MapContext produced"
+	}
+	return ""
+}
+
+// ctxPollGuard: the guard is the outcome of a non-blocking select that has a receive arm on some context's Done channel
+// (possibly fetched into a local before: cancelled := ctx.Done()): the context, and whether the guard says the arm was taken
+// (the context is done - exactly when ctx.Err() != nil) or not taken.
+func ctxPollGuard(gd guard) (ctx ssa.Value, done bool, ok bool) {
+	cf, isCmp := gd.asCmp()
+	if !isCmp || (cf.op != token.EQL && cf.op != token.NEQ) {
+		return nil, false, false
+	}
+	ex, isEx := cf.x.(*ssa.Extract)
+	k, isK := cf.y.(*ssa.Const)
+	if !isEx || !isK || ex.Index != 0 || k.Value == nil {
+		return nil, false, false
+	}
+	sel, isSel := ex.Tuple.(*ssa.Select)
+	if !isSel || sel.Blocking {
+		return nil, false, false
+	}
+	arm := -1
+	for i, st := range sel.States {
+		if st.Dir != types.RecvOnly {
+			continue
+		}
+		if kind, cx := classifyChan(resolveVal(st.Chan)); kind == "ctx-done" && cx != nil {
+			arm, ctx = i, cx
+		}
+	}
+	if arm < 0 {
+		return nil, false, false
+	}
+	idx := int(k.Int64())
+	switch {
+	case idx == arm && cf.op == token.EQL:
+		return ctx, true, true
+	case idx == arm && cf.op == token.NEQ && len(sel.States) == 1:
+		return ctx, false, true
+	case idx == -1 && cf.op == token.EQL:
+		return ctx, false, true
+	}
+	return nil, false, false
 }
